@@ -301,6 +301,35 @@ func c18SeedEvents() []c18EvCase {
 	add("12", "message", 0, nil, setTop("auth_events", jv{K: 'n'}))
 	// sticky
 	add("11", "message", 0, nil, setTop("sticky", jobj("duration_ms", jnum(9007199254740991))))
+	// senders the pseudo-ID room's sender table has never seen (querier answers nil, nil)
+	add("org.matrix.msc4014", "create", 0, nil, setTop("sender", jstr(strings.Repeat("A", 43))))
+	add("org.matrix.msc4014", "redaction", 0, nil, setTop("sender", jstr(strings.Repeat("A", 43))))
+	add("org.matrix.msc4014", "aliases", 0, nil, setTop("sender", jstr("@:")))
+	add("org.matrix.msc4014", "power_levels", 0, func(e *raEv, _ *c18Room) { e.Content = e.Content.with("users", jobj(strings.Repeat("A", 43), jnum(1))) }, nil)
+	// signatures blocks that SignJSON / Sign trip over
+	sig86 := strings.Repeat("A", 86)
+	for _, v := range []string{"1", "10", "12"} {
+		add(v, "member", 1, nil, setTop("signatures", jobj("a.example", jobj("ed25519:1", jstr(sig86)), "local.example", jv{K: 'n'})))
+		add(v, "member", 1, nil, setTop("signatures", jv{K: 'n'}))
+		add(v, "member", 1, nil, setTop("signatures", jobj("a.example", jobj("ed25519:1", jobj()))))
+		add(v, "message", 0, func(e *raEv, _ *c18Room) { e.Content = jobj("x", jnum(1)) }, setTop("content", jarr()))
+		add(v, "create", 0, nil, setTop("content", jstr("x")))
+		// duplicate keys: a later null after a good value
+		add(v, "message", 0, nil, func(ev jv, _ *c18Room) jv { n := jv{K: 'n'}; return c18ApplyTop(ev, "room_id", &n, true) })
+		add(v, "message", 0, nil, func(ev jv, _ *c18Room) jv { n := jv{K: 'n'}; return c18ApplyTop(ev, "sender", &n, true) })
+		add(v, "member", 0, nil, func(ev jv, _ *c18Room) jv { n := jv{K: 'n'}; return c18ApplyTop(ev, "state_key", &n, true) })
+		add(v, "message", 0, nil, func(ev jv, _ *c18Room) jv { n := jstr("m.room.create"); return c18ApplyTop(ev, "type", &n, true) })
+		// valid events of every role (SetUnsigned / Sign / Redact on the plain thing)
+		for _, role := range []string{"create", "power_levels", "join_rules", "member", "third_party_invite", "redaction"} {
+			add(v, role, 0, nil, nil)
+		}
+	}
+	// texts that are not objects
+	for _, v := range []string{"1", "3", "10", "12", "org.matrix.msc4014"} {
+		for _, text := range []string{"null", "[]", "5", `"x"`, "true", " null ", "{}", `{"type":null}`, `{"room_id":"!a:b"}`} {
+			out = append(out, c18EvCase{Version: v, JoinRule: "public", Bob: "-", Event: vfBytes(text), NoRoom: true})
+		}
+	}
 	return out
 }
 
